@@ -38,11 +38,30 @@ START = {'ok': 0, 'SSLError': 1, 'NotConnected': 2, 'ApiUsageError': 3}
 
 
 # ----------------------------------------------------------------------------- generation
-def gen_ops(rng, max_ops):
+def gen_plain_ops(rng, n):
     ops = []
-    for _ in range(rng.randint(0, max_ops)):
+    for _ in range(n):
         k = rng.choice(OPS)
         ops.append([k, rng.randrange(4)] if k in ('operate', 'notify', 'renew', 'getstatus', 'cycle') else [k])
+    return ops
+
+
+def gen_ops(rng, max_ops, lifecycle):
+    """a history; lifecycle: 0 = none, 1 = one life-cycle segment somewhere, 2 = maybe several.
+    A segment is restart() or stop_all - [another kind of peer answers at the provider address] - start_all."""
+    if not lifecycle:
+        return gen_plain_ops(rng, rng.randint(0, max_ops))
+    ops = gen_plain_ops(rng, rng.randint(0, max_ops // 2))
+    for _ in range(1 if lifecycle == 1 else rng.randint(1, 3)):
+        r = rng.random()
+        if r < 0.25:
+            ops.append(['restart'])
+        else:
+            ops.append(['stop'])
+            if r < 0.75:
+                ops.append(['flip'])
+            ops.append(['start'] if rng.random() < 0.7 else ['restart'])
+        ops += gen_plain_ops(rng, rng.randint(0, max_ops // 3))
     return ops
 
 
@@ -53,15 +72,18 @@ def gen_cases(ctx):
     if ctx.thorough:
         for p_tls, p_srv, p_alt, c_mode, c_srv, c_alt, x in itertools.product(
                 [False, True], P_SRV, [False, True], C_MODE, P_SRV, [False, True], XK):
-            for _ in range(2 if x != 'bad' and c_mode != 'enforced_noctx' else 1):
+            for rep in range(2 if x != 'bad' and c_mode != 'enforced_noctx' else 1):
                 cases.append(dict(p_tls=p_tls, p_srv=p_srv, p_alt=p_alt, c_mode=c_mode, c_srv=c_srv, c_alt=c_alt, x=x,
-                                  ops=gen_ops(rng, max_ops), shutdown=rng.choice(['provider_first', 'consumer_first'])))
+                                  ops=gen_ops(rng, max_ops, 2 * rep),
+                                  shutdown=rng.choice(['provider_first', 'consumer_first'])))
     else:
         for p_tls, p_srv, c_mode, c_srv in itertools.product([False, True], P_SRV, C_MODE, P_SRV):
             for rep in range(2 if c_mode in ('optional', 'enforced') else 1):
                 x = rng.choice(['same', 'flip']) if rep else rng.choice(['same', 'same', 'same', 'flip', 'flip', 'flip', 'bad'])
+                # consumers with a TLS container: one plain history and one with a life-cycle segment
+                lifecycle = rep if c_mode in ('optional', 'enforced') else int(rng.random() < 0.5)
                 cases.append(dict(p_tls=p_tls, p_srv=p_srv, p_alt=rng.random() < 0.5, c_mode=c_mode, c_srv=c_srv,
-                                  c_alt=rng.random() < 0.5, x=x, ops=gen_ops(rng, max_ops),
+                                  c_alt=rng.random() < 0.5, x=x, ops=gen_ops(rng, max_ops, lifecycle),
                                   shutdown=rng.choice(['provider_first', 'consumer_first'])))
     return cases
 
@@ -117,14 +139,15 @@ def insecure(party, tr):
 
 
 def statuses(case, tr):
+    """[ctor; is_ssl_connection; provider port TLS at the beginning; sink port TLS (2 = not running at the end);
+        provider events secure; consumer events secure] ++ outcome of every start attempt"""
     ctor = {'ok': 0, 'ValueError': 1}.get(tr.get('ctor'), 8)
     if ctor != 0:
-        return [ctor, 9, 3, int(bool(tr.get('p_listen_tls'))), 2, int(not insecure('P', tr)), 1]
-    start = START.get(tr.get('start'), 8)
+        return [ctor, 3, int(bool(tr.get('p_listen_tls'))), 2, int(not insecure('P', tr)), 1]
     isc = {None: 0, False: 1, True: 2}[tr.get('isc')]
-    cl = tr.get('c_listen_tls')
-    return [0, start, isc, int(bool(tr.get('p_listen_tls'))), 2 if cl is None else int(bool(cl)),
-            int(not insecure('P', tr)), int(not insecure('C', tr))]
+    cl = tr.get('c_listen_tls') if tr.get('running') else None
+    return [0, isc, int(bool(tr.get('p_listen_tls'))), 2 if cl is None else int(bool(cl)),
+            int(not insecure('P', tr)), int(not insecure('C', tr))] + [START.get(x, 8) for x in tr.get('starts', [])]
 
 
 def lit_case(c):
@@ -134,7 +157,8 @@ def lit_case(c):
     ops = []
     for o in c['ops']:
         ops += {'probe': ['OProbe'], 'getmdib': ['OGetMdib'], 'operate': ['OOperate'], 'notify': ['ONotify'],
-                'renew': ['ORenew'], 'getstatus': ['OGetStatus'], 'cycle': ['OUnsubscribe', 'OResubscribe']}[o[0]]
+                'renew': ['ORenew'], 'getstatus': ['OGetStatus'], 'cycle': ['OUnsubscribe', 'OResubscribe'],
+                'stop': ['OStop'], 'start': ['OStart'], 'restart': ['ORestart'], 'flip': ['OPeerFlip']}[o[0]]
     b = coqlit
     return (f'(mkscase {b(REPAIRED)} (mkpconf {b(c["p_tls"])} {srv(c["p_srv"])} {b(c["p_alt"])}) '
             f'(mkcconf {mode} {srv(c["c_srv"])} {b(c["c_alt"])}) '
@@ -166,7 +190,7 @@ CTXNAME = {0: 'None', 1: 'P.client', 2: 'P.server', 3: 'C.client', 4: 'C.server'
 
 
 def summary(tr):
-    return {'ctor': tr.get('ctor'), 'start': tr.get('start'), 'start_msg': tr.get('start_msg'), 'isc': tr.get('isc'),
+    return {'ctor': tr.get('ctor'), 'starts': tr.get('starts'), 'start_msgs': tr.get('start_msgs'), 'isc': tr.get('isc'),
             'phases': tr.get('phases'), 'events': [decode(c) for c in ev_codes(tr)],
             'urls': sorted({(a['kind'], a['by'], a['url']) for a in tr.get('advs', [])})[:40]}
 
@@ -185,7 +209,7 @@ def oracle(ctx, case, tr):
         bad = insecure(party, tr)
         if party == 'P' and case['p_srv'] == 'own' and not tr.get('p_listen_tls'):
             bad.append(('own-server-not-tls', 'listening socket of the provider not wrapped'))
-        if party == 'C' and case['c_srv'] == 'own' and tr.get('start') == 'ok' and not tr.get('c_listen_tls'):
+        if party == 'C' and case['c_srv'] == 'own' and tr.get('running') and not tr.get('c_listen_tls'):
             bad.append(('own-server-not-tls', 'listening socket of the event sink not wrapped'))
         for clause in sorted({b[0] for b in bad}):
             ex = [b[1] for b in bad if b[0] == clause][:3]
@@ -244,7 +268,7 @@ def run(ctx):
         ctx.broken('correspondence', 'world (implementation run crashed)', err)
         return ctx.finish('implementation run crashed', [], [])
     pairs, keys = [], []
-    hist = {'start': {}, 'ops': {}, 'actions': {}, 'urls_by_kind': {}, 'clients_created': 0, 'exchanges': 0,
+    hist = {'start': {}, 'later_starts': {}, 'ops': {}, 'actions': {}, 'urls_by_kind': {}, 'clients_created': 0, 'exchanges': 0,
             'malformed_urls': {}, 'configs': 0, 'oracle_applicable': {'provider': 0, 'consumer_enforced': 0}}
     n_viol = 0
     crashed = []
@@ -260,6 +284,8 @@ def run(ctx):
         hist['start'][str(tr.get('start', tr.get('ctor')))] = hist['start'].get(str(tr.get('start', tr.get('ctor'))), 0) + 1
         for o in c['ops']:
             hist['ops'][o[0]] = hist['ops'].get(o[0], 0) + 1
+        for x in tr.get('starts', [])[1:]:
+            hist['later_starts'][x] = hist['later_starts'].get(x, 0) + 1
         for k, v in tr.get('actions', {}).items():
             hist['actions'][k] = hist['actions'].get(k, 0) + v
         for a in tr['advs']:
@@ -354,7 +380,7 @@ def run(ctx):
         ctx.broken('correspondence', 'world',
                    {'disagreements': len(by_stream['world']), 'first_case': c,
                     'impl': {'statuses': statuses(c, tr), 'events': [decode(x) for x in ev_codes(tr)],
-                             'start_msg': tr.get('start_msg')},
+                             'start_msgs': tr.get('start_msgs')},
                     'model': model[-1800:]})
     if 'ctxflags' in by_stream:
         i = by_stream['ctxflags'][0]
